@@ -32,6 +32,10 @@ CHECKS = {
     "C07": ("model-based histories (put/get/cancel grouped per instant, clock advances) on Container/Store/PriorityStore/"
             "FilterStore vs a model updated only from observed grants; exact Fraction arithmetic", EXPL,
             "Grants are observed as Put/Get events being triggered (schedule hook of an Environment subclass).", "4/C07"),
+    "C08": ("generated workloads through every element type between taps and through generated pipelines (fan-in, fan-out, "
+            "splitter) vs conservation accounting at every step, identity/field preservation, per-flow order, generator law and "
+            "sink books", EXPL,
+            "Wire loss is the only uncounted discard (its amount is judged by C10); seeded randomness substituted harness-side.", "4/C08"),
     "C09": ("generated workloads through a tapped Port/PortMonitor/REDPort vs a reference FIFO server in Fractions driven by the "
             "observed arrival/departure interleaving; set-valued same-instant decisions; scripted RED draws", EXPL,
             "A tail drop is what the port counts in packets_dropped (cross-checked against what leaves); RED draws are a "
@@ -53,6 +57,15 @@ CHECKS = {
     "C15": ("reference round-robin visitor (RR/WRR/DRR) replayed on observed arrivals must reproduce the exact transmission "
             "sequence; model-free DRR credit bounds and fairness windows", EXPL,
             "Arrivals after t=0 carry unique 2^-16 offsets so visibility at each decision is unambiguous.", "4/C15"),
+    "C16": ("TCPSink: generated + bounded-exhaustive arrival sequences vs contiguous-prefix reference; end-to-end sender/wire/"
+            "sink loops with generated finite data/ACK drop sets vs bounded-liveness completion", EXPL,
+            "Liveness judged in bounded form (agenda exhaustion or a 1e9 s horizon; step budget => inconclusive).", "4/C16"),
+    "C17": ("model-based ACK/dup-ACK/timer histories on a bare sender vs a reference Reno/CUBIC sender written from the statement, "
+            "compared after every rule and against the tap", EXPL,
+            "CUBIC congestion-avoidance growth is compared with a transcription of the code (statement gives no formula).", "4/C17"),
+    "C18": ("generated tables/populations/topologies for FlowDemux, FIBDemux, switches, Hub, splitters, FatTree(k) with FIB walk and "
+            "end-to-end fat-tree simulation vs the routing rules of the statement", EXPL,
+            "SP inside FairPacketSwitch is configured per flow; table port numbers non-negative.", "4/C18"),
     "C19": ("generated scenarios (creator, sleeping actors calling stop/restart, scripted callback) vs a reference timer replayed "
             "over the harness log in execution order", EXPL,
             "Same-instant order of calls and expiries is taken from the harness log; two cases are left unjudged as unspecified "
